@@ -395,7 +395,10 @@ Definition lib_pkh_to_bech (hrp : bytes) (witver : Z) (h : bytes) : option daddr
          | _ => None
          end in
   match r with
-  | Some (wv, prog) => if (16 <? wv) || (wv <? 0) then None else Some (DBech hrp wv prog)
+  (* a header byte 0x30..0x4f gives a "version" -32..-1: Python indexes the code string from its end and a
+     string that is no address at all comes out (reported here as DBech with that negative version);
+     below -32 the indexing raises *)
+  | Some (wv, prog) => if (16 <? wv) || (wv <? -32) then None else Some (DBech hrp wv prog)
   | None => None
   end.
 
